@@ -7,7 +7,10 @@ import simworld
 from common import frac
 
 META = {
-    "level_text": ("Theorems (Lean 4): after the removal update every order on the removed runner has no fragments, matched 0, cancelled/lapsed 0, "
+    "level_text": ("Whole-run (removal_lists_whole_run, removals_applied_once_whole_run): after ANY run every market's own list of applied removals is a fold of a "
+                   "small specification over the updates (a non-closing update appends the REMOVED runners of its book that are not in ITS list yet; nothing "
+                   "else touches a list), no list ever holds a removal twice, and an update only processes what is not in the list. "
+                   "Theorems (Lean 4): after the removal update every order on the removed runner has no fragments, matched 0, cancelled/lapsed 0, "
                    "voided = size (or liability) and nothing remaining, whatever its prior buckets and status (full statement, provable since fix "
                    "9e33719; SP orders are marked reconciled so that they complete, fix 7f9211a); matched fragment prices on other runners become "
                    "max(round2(p(1-af/100)), 1.01) when af >= 2.5 and are unchanged for None / 0 / below the threshold, never below 1.01; the two "
